@@ -14,7 +14,8 @@ CFG = dict(
     go_tags="cl",
     rigs=[dict(test="TestC13", timeout_quick=400, timeout_thorough=2400),
           dict(test="TestC13Surplus", timeout_quick=200, timeout_thorough=300),
-          dict(test="TestC13Crash", timeout_quick=300, timeout_thorough=900)],
+          dict(test="TestC13Crash", timeout_quick=300, timeout_thorough=900),
+          dict(test="TestC13Reuse", timeout_quick=200, timeout_thorough=300)],
     reason_text={"12": "stuck read loop: the read failure was injected, every stream of the scenario is gone, yet at a quiescent point the multiplexer's read loop is still alive: it never notices the transport closing and every call waiting for a reply waits for ever",
                  "1": "the real client's observation differs from every outcome of the Gallina model (Model/Client.v, all orders of internal rules)",
                  "3": "a unary call's result is not what the first delivered envelope carrying its id says",
